@@ -431,7 +431,7 @@ def well_typed(c: dict) -> bool:
         elif k == "toDF":
             types = {n: ty for n, ty in zip(s["names"], types.values())}
         elif k == "unpivot":
-            if any(types.get(v) != "int" for v in s["vals"]):
+            if any(types.get(v) != "int" for v in s["vals"]) or any(c not in types for c in s["ids"]):
                 return False
             types = {**{c: types[c] for c in s["ids"]}, s["var"]: "str", s["val"]: "int"}
     return True
